@@ -324,6 +324,10 @@ func c14JudgeResponse(c c14Case, with, without wire.Response) (string, string) {
 		// balancer's own error answers are written with http.Error, whatever the method)
 		total = 0
 	}
+	if c.Status == 204 || c.Status == 304 {
+		// likewise behind a status that has no body: net/http refuses the handler's writes
+		total = 0
+	}
 	if c.Abort {
 		// the handler broke off mid-body: what reaches the client must not look like a complete
 		// response (unless it is the 413)
@@ -597,6 +601,13 @@ func TestVerifC14(t *testing.T) {
 					for _, fl := range []string{"none", "first"} {
 						run(c14Case{L: L, Position: pos, Method: ms.m, Status: ms.s, Comp: []int{}, Flush: fl, Entity: n})
 					}
+				}
+			}
+			// a handler that writes a body behind a status that has none (204, 304): net/http refuses
+			// those writes, nothing travels - an exchange within any limit, whatever is "written"
+			for _, st := range []int{204, 304} {
+				for _, n := range []int{1, L, L + 1, 3 * L} {
+					run(c14Case{L: L, Position: pos, Method: "GET", Status: st, Comp: []int{n}, Flush: "none"})
 				}
 			}
 			// request direction
